@@ -149,6 +149,58 @@ def kinds_table(L):
     return bad, checked
 
 
+def numeric_sweep(L):
+    """Plain numbers through every iterable flavour: the result may not depend on the flavour
+    (numeric accuracy itself is outside this technique; only flavour-independence is judged)."""
+    from fractions import Fraction  # noqa: PLC0415
+
+    out, runs = [], 0
+    datasets = [[0.1] * 10, [1e16, 1.0, -1e16], [1, 2.5, True, Fraction(1, 3)], [3, 1, 2, 1.0], []]
+
+    def flav(kind, data):
+        if kind == "list":
+            return list(data)
+        if kind == "iter":
+            return iter(list(data))
+        if kind == "tuple":
+            return tuple(data)
+
+        async def agen():
+            for x in data:
+                yield x
+        if kind == "agen":
+            return agen()
+
+        class It:
+            def __init__(self):
+                self.it = iter(list(data))
+
+            def __aiter__(self):
+                return self
+
+            async def __anext__(self):
+                try:
+                    return next(self.it)
+                except StopIteration:
+                    raise StopAsyncIteration from None
+        return It()
+
+    ops = {"sum": lambda it: L.sum(it), "sum0.0": lambda it: L.sum(it, 0.0), "max": lambda it: L.max(it, default=None),
+           "min": lambda it: L.min(it, default=None), "sorted": lambda it: L.sorted(it), "list": lambda it: L.list(it),
+           "accumulate": lambda it: L.list(L.accumulate(it, initial=0)), "reduce": lambda it: L.reduce(lambda a, b: a + b, it, 0)}
+    for name, op in ops.items():
+        for data in datasets:
+            res = {}
+            for kind in ("list", "iter", "tuple", "agen", "cls"):
+                r = Task(op(flav(kind, data)), Accounting()).run()
+                runs += 1
+                res[kind] = (r[0], repr(r[1]) if r[0] == "done" else type(r[1]).__name__)
+            if len(set(res.values())) != 1:
+                out.append((f"C03/{name.rstrip('0.')}/numeric-result-depends-on-iterable-flavour",
+                            {"engine": "numeric-sweep", "cfg": {"data": repr(data)}, "observed": res}))
+    return out, runs
+
+
 def check_c03(prop, tier, seed):
     v = Verdict(prop, tier, seed)
     cases, stats = generate(tier, ITER_TOOLS + AGG_TOOLS + ["any_iter", "apply", "sync"], faults=True, prefixes=False)
@@ -164,6 +216,10 @@ def check_c03(prop, tier, seed):
             runs += n
             for sig, d in out:
                 v.violation(sig, d)
+    out, n = numeric_sweep(tm.load_lib())
+    runs += n
+    for sig, d in out:
+        v.violation(sig, d)
     bad, checked = kinds_table(tm.load_lib())
     for name, why in bad:
         v.violation(f"C03/{name}/returns-plain-value", {"engine": "kinds", "expected": "awaitable | async iterator | async context manager", "observed": why})
@@ -520,7 +576,7 @@ STREAM_TOOLS = {
     "chain": ({"outer": False}, 0), "compress": ({"z": 0}, 0), "dropwhile": ({"z": 0}, 0), "takewhile": ({"z": 0}, 0),
     "islice": ({"start": 2, "stop": -1, "step": 3}, 0), "pairwise": ({"z": 0}, 0), "starmap": ({"z": 0}, 0), "zip_longest": ({"z": 0}, 0),
     "merge": ({"key": True, "rev": False}, 0),
-    "all": ({"z": 0}, 0), "any": ({"z": 0}, 0), "sum": ({"startv": "zero"}, 0), "min": ({"key": True, "dflt": False}, 0), "max": ({"key": False, "dflt": False}, 0),
+    "all": ({"z": 0}, 0), "any": ({"z": 0}, 0), "sum": ({"startv": "zero"}, 0), "min": ({"key": True, "dflt": "no"}, 0), "max": ({"key": False, "dflt": "no"}, 0),
     "reduce": ({"init": True}, 0), "nlargest": ({"key": True, "n": 5}, 5), "nsmallest": ({"key": False, "n": 5}, 5),
 }
 NSRC = {"zip": 2, "map": 2, "compress": 2, "zip_longest": 2, "merge": 3, "chain": 2}
